@@ -43,6 +43,14 @@ def one(ctx, S, coef, parity, crit, maxiter, force_form=None):
         kw["crit"] = crit
     if maxiter is not None:
         kw["maxiter"] = maxiter
+    # the settings as Python numbers or as the NumPy scalars that numpy arithmetic / np.arange hand out
+    sform = zlib.crc32(repr((coef, parity, crit, maxiter, "setting-types")).encode()) % 3
+    if sform == 1 and kw:
+        ctx.count("setting-types:numpy-scalars")
+        kw = {k_: (np.int64(v) if isinstance(v, int) else np.float64(v)) for k_, v in kw.items()}
+    elif sform == 2 and "maxiter" in kw and isinstance(kw["maxiter"], int):
+        ctx.count("setting-types:float-maxiter")
+        kw["maxiter"] = float(kw["maxiter"])
     try:
         with core.quiet():
             form = ["float64-array", "float64-array", "float32-array", "float16-array", "float64-array"][zlib.crc32(repr((coef, parity)).encode()) % 5]
